@@ -74,7 +74,10 @@ Section WithRec.
     match f_len f with
     | LNone => Ok None
     | LLit n => Ok (Some n)
-    | LRef fld => match assoc_last locals fld None with Some (VInt z) => Ok (Some z) | _ => Err EUnexpected end
+    | LRef fld => match assoc_last locals fld None with
+                  | Some (VInt z) => Ok (Some z)
+                  | Some VNone => Err EType          (* an absent optional length field: get_fixed_string(None) / range(None) raise TypeError *)
+                  | _ => Err EUnexpected end
     end.
 
   Definition deser_instr (start : Z) (i : einstr) (locals : list (string * value)) (r : rstate) : rres (list (string * value)) :=
